@@ -32,7 +32,47 @@ fn generator_scenario(ctx: &Ctx, idx: u64) -> Report {
     let mut rng = ChaCha8Rng::seed_from_u64(sseed(ctx, "generator", idx));
     let info = replay_info("C19", "generator", ctx, idx);
     report.evaluations += 1;
-    match idx % 4 {
+    match idx % 5 {
+        // Blocks anywhere in the 40-bit range: ids handed out from a generator placed at position P
+        // must fit 5 bytes, be pairwise distinct, and never equal an id of the first blocks (the ones
+        // the node's long-lived refresh and bootstrap activities hold).
+        4 => {
+            let mut first = std::collections::HashSet::new();
+            let mut g0 = AIDGenerator::new();
+            for _ in 0..3 * BLOCK {
+                first.insert(g0.generate().action_id().verif_raw());
+            }
+            let mut positions: Vec<u64> = vec![1 << 16, 1 << 24, 1 << 31, (1 << 32) - BLOCK, 1 << 32, (1 << 32) + BLOCK, 1 << 33, 1 << 36, 1 << 39, AID_SPACE - 4 * BLOCK];
+            for _ in 0..ctx.tier.pick(40, 400) {
+                positions.push(rng.gen_range(3..AID_SPACE / BLOCK - 3) * BLOCK);
+            }
+            for pos in positions {
+                let mut g = AIDGenerator::verif_with_next_alloc(pos);
+                let mut seen = std::collections::HashSet::new();
+                for i in 0..2 * BLOCK {
+                    let a = g.generate().action_id().verif_raw();
+                    let bad = if a >= AID_SPACE {
+                        Some("action-id-out-of-range")
+                    } else if first.contains(&a) || !seen.insert(a) {
+                        Some("action-id-repeats")
+                    } else {
+                        None
+                    };
+                    if let Some(sig) = bad {
+                        report.violation(
+                            "C19",
+                            sig,
+                            format!("generator placed at activity #{pos:#x}: id #{i} is {a:#x}, which is out of range / was already handed out (to one of the first activities or in this run)"),
+                            info.clone().with("position", format!("{pos:#x}")),
+                        );
+                        return report;
+                    }
+                }
+                report.add("action_ids_checked_for_repeats", 2 * BLOCK);
+                report.count("generator_positions_across_the_40_bit_range");
+            }
+            report.distinct_extra += 1;
+        }
         // one activity: a whole cycle of 2^24 message ids is repeat-free; then a few blocks more
         0 => {
             let action: u64 = rng.gen_range(0..AID_SPACE);
@@ -229,7 +269,9 @@ pub fn check(tier: Tier) -> Check {
                activity plus 5 blocks, with a 2^24-bit bitmap: no repeat, constant 5-byte prefix, 8 bytes; (b) \
                generators placed 1..3 blocks before the 2^24 wrap (verif-only constructor) are run across it; \
                (c) 2^20 (quick) / 2^22 (thorough) consecutive activities get pairwise distinct prefixes < 2^40; \
-               (d) the action-id generator placed 1..3 blocks before 2^40 is run across the wrap. Streams \
+               (d) the action-id generator placed 1..3 blocks before 2^40 is run across the wrap; (e) generators \
+               placed at 2^16, 2^24, 2^31, 2^32 -/+ a block, 2^33, 2^36, 2^39 and 40..400 random block positions hand out \
+               two blocks each: in range, pairwise distinct and disjoint from the first three blocks. Streams \
                wire-*: scenarios of C03 (1..6 concurrent searches under forgery), C04 (faults), C15 (bootstrap \
                configurations and outages) and C16 (early searches) are re-run with the wire monitor deciding: \
                every emitted query has an 8-byte id; an id is used twice only by the identical find_node of the \
@@ -246,7 +288,7 @@ pub fn check(tier: Tier) -> Check {
         ],
         deciding: vec!["C19"],
         streams: vec![
-            Stream::new("generator", tier.pick(16, 64), generator_scenario),
+            Stream::new("generator", tier.pick(20, 80), generator_scenario),
             Stream::new("wire-searches", tier.pick(100, 2000), c03::scenario_pub),
             Stream::new("wire-faults", tier.pick(100, 2000), c04::faults_scenario_pub),
             Stream::new("wire-bootstrap", tier.pick(200, 4000), c15::scenario_pub),
@@ -263,6 +305,7 @@ pub fn check(tier: Tier) -> Check {
             ("activities_checked_for_prefix_sharing", tier.pick(1_000, 20_000)),
             ("tids_shared_by_design_first_bootstrap_round", tier.pick(500, 10_000)),
             ("nodes_taken_past_an_action_id_block_boundary", tier.pick(16, 160)),
+            ("generator_positions_across_the_40_bit_range", tier.pick(100, 3_000)),
         ],
         exhaustive: false,
     }
